@@ -169,7 +169,8 @@ Definition iofs_readdir (s : St) (name : str) : St * res :=
     | RInfos l None => (s3, RInfos (sort_by by_name l) None)
     | _ => (s3, r)
     end
-  | x => x
+  | (s1, RErr e) => (s1, RErr e)
+  | (s1, _) => (s1, RPanic)                                (* Open returns a file or an error *)
   end.
 
 (* func (iofs IOFS) ReadFile(name) *)
